@@ -60,9 +60,13 @@ def _design_plugin():
                 s = self._rng.uniform(-1, 1, size=(R, P, V))
             self.calls += 1
             assert s.shape == (R, P, V), (s.shape, (R, P, V))
+            if self._opts.get("retain") and getattr(self, "_table", None) is not None:
+                return self._table              # a sampler that hands out, again and again, an array it still owns
             out = np.array(s, dtype=np.float64)
             if self._mask is not None:
                 out[..., ~np.asarray(self._mask, dtype=bool)] = 0.0
+            if self._opts.get("retain"):
+                self._table = out
             return out
 
     class DesignPlugin(SamplerPlugin):
